@@ -312,6 +312,7 @@ package val
 //@   mode bv
 //@   property C10
 //@   requires convSrc(val)
+//@   assigns nothing
 //@   ensures result1 == nil ==> denotesInt(result0, val)
 
 //@ pure denotesFloat(r float64, v interface{}) bool = \
@@ -420,3 +421,28 @@ package val
 //@   requires 0 <= i && i < len(x)
 //@   assigns nothing
 //@   ensures result == litem(x, i)
+
+// ---- C10, list forms: a Go slice converted to a list type is converted element by element, exactly or not at all ----
+// (x$k, l$k, i$k: the k-th declaration of that name in source order; the type switch declares one x per case)
+//@ func toUInt64List(val interface{}) ([]uint64, error)
+//@   mode bv
+//@   property C10
+//@   requires dyn(val) != []time.Time
+//@   requires dyn(val) == []interface{} ==> forall k int :: 0 <= k && k < len(val.([]interface{})) ==> convSrc(val.([]interface{})[k])
+//@   requires convSrc(val) || dyn(val) == []int || dyn(val) == []uint64 || dyn(val) == []interface{} || dyn(val) == []float64 || dyn(val) == []string
+//@   loop 1 invariant 0 <= i$1 && i$1 <= len(x$1)
+//@   loop 1 invariant forall k int :: 0 <= k && k < i$1 ==> x$1[k] >= 0 && l$1[k] == uint64(x$1[k])
+//@   loop 2 invariant 0 <= i$2
+//@   loop 3 invariant 0 <= i$3 && i$3 <= len(x$4)
+//@   loop 3 invariant forall k int :: 0 <= k && k < len(x$4) ==> convSrc(x$4[k])
+//@   loop 3 invariant forall k int :: 0 <= k && k < i$3 ==> denotesInt(l$3[k], x$4[k])
+//@   loop 4 invariant 0 <= i$4 && i$4 <= len(x$5)
+//@   loop 4 invariant forall k int :: 0 <= k && k < i$4 ==> fdenotes(x$5[k], l$4[k])
+//@   loop 5 invariant 0 <= i$5 && i$5 <= len(x$6)
+//@   loop 5 invariant forall k int :: 0 <= k && k < i$5 ==> l$5[k] == strnum(x$6[k])
+//@   ensures [intSlice] result1 == nil && dyn(val) == []int ==> len(result0) == len(val.([]int)) && (forall k int :: 0 <= k && k < len(result0) ==> val.([]int)[k] >= 0 && result0[k] == uint64(val.([]int)[k]))
+//@   ensures [anySlice] result1 == nil && dyn(val) == []interface{} ==> len(result0) == len(val.([]interface{})) && (forall k int :: 0 <= k && k < len(result0) ==> denotesInt(result0[k], val.([]interface{})[k]))
+//@   ensures [floatSlice] result1 == nil && dyn(val) == []float64 ==> len(result0) == len(val.([]float64)) && (forall k int :: 0 <= k && k < len(result0) ==> fdenotes(val.([]float64)[k], result0[k]))
+//@   ensures [stringSlice] result1 == nil && dyn(val) == []string ==> len(result0) == len(val.([]string)) && (forall k int :: 0 <= k && k < len(result0) ==> result0[k] == strnum(val.([]string)[k]))
+//@   ensures [same] result1 == nil && dyn(val) == []uint64 ==> result0 === val.([]uint64)
+//@   ensures [single] result1 == nil && convSrc(val) ==> len(result0) == 1 && denotesInt(result0[0], val)
